@@ -517,7 +517,8 @@ main(int argc, char **argv) {
   // Add all of the .h files we are explicitly including to the parser.
   for (i = 1; i < argc; ++i) {
     Filename filename = Filename::from_os_specific(argv[i]);
-    filename.make_absolute();
+    // The preprocessor looks included files up by their canonical name.
+    filename.make_canonical();
     parser._explicit_files.insert(filename);
   }
 
